@@ -103,6 +103,22 @@ def c12_base(ctx):
     auto = ('variant', PARAMS, 0, (('variant', NUM_THREADS, F.variant_index(NUM_THREADS, 'Auto'), (), 'Auto'),
                                    ('variant', CHUNK_SIZE, F.variant_index(CHUNK_SIZE, 'Auto'), (), 'Auto')), 'Params')
     n = 0
+
+    def defaults_resolved(t, depth=0):
+        """replace argument-less calls of crate functions (`<NumThreads as Default>::default()`), which the inlining depth left
+        as calls, by what they return"""
+        if t is None or depth > 6:
+            return t
+        if t[0] == 'call' and not t[2] and t[1] in F.bodies and not ctx.cfg(F.bodies[t[1]]).loops():
+            return defaults_resolved(ctx.run(t[1]).ret, depth + 1)
+        if t[0] == 'call' and not t[2] and sg(t[1]).endswith('Default>::default'):
+            for nm in F.bodies:
+                if sg(nm) == sg(t[1]) or nm.endswith(t[1].split(' as ')[-1]) and nm.startswith('<' + t[1].split(' as ')[0].lstrip('<')):
+                    return defaults_resolved(ctx.run(nm).ret, depth + 1)
+        if t[0] == 'variant':
+            return ('variant', t[1], t[2], tuple(defaults_resolved(x, depth + 1) for x in t[3]), t[4])
+        return t
+
     for cn in S.constructors:
         b = F.bodies[cn]
         has_params_arg = any(b.locals[l]['ty'].endswith(PARAMS) for l in b.arg_locals())
@@ -113,6 +129,7 @@ def c12_base(ctx):
         adt = b.d['impl_self'][4:]
         idx = F.field_index(adt, 'params')
         got = r.ret[3][idx] if r.ret[0] == 'variant' and idx < len(r.ret[3]) else None
+        got = defaults_resolved(got)
         ok = got == auto
         out.inst('C12-BASE/' + key_of(b), ok, t_str(got), sample={'ctor': key_of(b), 'params': t_str(got)})
         if not ok:
@@ -129,7 +146,7 @@ def c12_base(ctx):
         for alt in alternatives(r.ret):
             if alt[0] == 'variant' and ('adt:' + alt[1]) in S.par_impl_types:
                 idx = F.field_index(alt[1], 'params')
-                ok = alt[3][idx] == auto
+                ok = defaults_resolved(alt[3][idx]) == auto
             elif alt[0] == 'call' and term_callee(alt).startswith(PAR_TRAIT + '::') and alt[2] and alt[2][0] == P('self'):
                 ok = True
             else:
@@ -358,6 +375,8 @@ def s3(ctx):
             idx = params_args(b, t)
             if not idx:
                 continue
+            if hn in S.setters and callee_of(t) in S.constructors:
+                continue      # a setter that rebuilds Self: the params it builds are decided by S7
             r = r or ctx.run(hn)
             c = r.calls.get(bb)
             if c is None:
@@ -462,7 +481,34 @@ def exact_seed(F, x='X'):
     return X, ex, rx
 
 
-@rule('C11-RESOLVE', 'calc_chunk_size(Exact(x)) = Exact(x); Runner::new stores it; the only Runner literal is in Runner::new')
+def resolved_exact_ok(F, term, X):
+    """Exact(p) where p is X, or X clamped from above by (at least) the input length: min(X, len) / min(X, max(len, k)).
+    A pull of min(X, len) elements from a source of len elements is the same pull as one of X elements."""
+    if not (term is not None and term[0] == 'variant' and term[1] == RESOLVED and term[4] == 'Exact' and len(term[3]) == 1):
+        return False
+
+    def is_len(t):
+        return t[0] == 'field' and t[2] == 1 and t[3] == 0 and t[1][0] == 'param' and 'len' in t[1][1]
+
+    def at_least_len(t):
+        if is_len(t):
+            return True
+        if t[0] == 'call' and term_callee(t) in ('std::cmp::Ord::max', 'std::cmp::max') and len(t[2]) == 2:
+            return any(at_least_len(x) for x in t[2])
+        return False
+
+    for p in alternatives(term[3][0]):
+        if p == X:
+            continue
+        if p[0] == 'call' and term_callee(p) in ('std::cmp::Ord::min', 'std::cmp::min') and len(p[2]) == 2 and X in p[2]:
+            other = p[2][1] if p[2][0] == X else p[2][0]
+            if at_least_len(other):
+                continue
+        return False
+    return True
+
+
+@rule('C11-RESOLVE', 'calc_chunk_size(Exact(x)) = Exact(x) (or x clamped by the input length); Runner::new stores it; the only Runner literal is in Runner::new')
 def c11_resolve(ctx):
     out = RuleOut('C11-RESOLVE')
     F = ctx.facts
@@ -472,7 +518,7 @@ def c11_resolve(ctx):
     for l in calc.arg_locals():
         args.append(ex if calc.locals[l]['ty'].endswith(CHUNK_SIZE) else P(calc.local_name(l)))
     r = ctx.opa.run(calc.name, args)
-    ok = r.ret == rx
+    ok = r.ret == rx or resolved_exact_ok(F, r.ret, X)
     out.inst('C11-RESOLVE/calc_chunk_size', ok, t_str(r.ret), sample={'seed': 'chunk_size = Exact(X)', 'ret': t_str(r.ret)})
     if not ok:
         out.fail('C11-RESOLVE/calc_chunk_size', 'calc_chunk_size(Exact(X)) = %s, expected ResolvedChunkSize::Exact(X)' % t_str(r.ret), calc.where())
@@ -486,8 +532,23 @@ def c11_resolve(ctx):
     r = ctx.opa.run(new.name, args)
     idx = F.field_index(RUNNER, 'chunk_size')
     got = r.ret[3][idx] if r.ret[0] == 'variant' and r.ret[1] == RUNNER else None
-    ok = got == rx
+    ok = got == rx or resolved_exact_ok(F, got, X)
     out.inst('C11-RESOLVE/Runner::new', ok, t_str(got), sample={'seed': 'params.chunk_size = Exact(X)', 'runner.chunk_size': t_str(got)})
+    # the length that may clamp the chunk size is the length of the very source the workers pull from
+    for en in ctx.slots.runner_entries:
+        eb = F.bodies[en]
+        er = ctx.run0(en)
+        for bb, c in er.call_sites():
+            if callee_of(c['t']) == new.name:
+                li = [i for i, l in enumerate(new.arg_locals()) if 'Option<usize>' in new.locals[l]['ty']]
+                iters = [P(eb.local_name(l)) for l in eb.arg_locals() if local_type_param(eb, l) and 'ConcurrentIter' in str(eb.d.get('fn_bounds')) or eb.local_name(l) == 'iter']
+                for i in li:
+                    a = c['args'][i] if i < len(c['args']) else None
+                    okl = a is not None and a[0] == 'call' and coniter_term_is(a, {'try_get_len'}) and a[2] and a[2][0] in iters
+                    out.inst('C11-RESOLVE/input_len/%s' % key_of(eb), okl, t_str(a)[:80], sample={'entry': key_of(eb), 'input_len': t_str(a)[:100]})
+                    if not okl:
+                        out.fail('C11-RESOLVE/input_len/%s' % key_of(eb), '%s resolves the settings with input length %s, not with try_get_len() of the iterator the workers pull from'
+                                 % (key_of(eb), t_str(a)[:100]), eb.where(c['line']))
     if not ok:
         out.fail('C11-RESOLVE/Runner::new', 'Runner::new stores %s as chunk_size for ChunkSize::Exact(X)' % t_str(got), new.where())
     # sole construction site / no later assignment to the field
@@ -1048,6 +1109,138 @@ def binary_op_is(ctx, op, names):
     return False
 
 
+STD_SELECT = {'std::cmp::Ord::min': {'Less': 'x', 'Equal': 'x', 'Greater': 'y'}, 'std::cmp::min': {'Less': 'x', 'Equal': 'x', 'Greater': 'y'},
+              'std::cmp::Ord::max': {'Less': 'y', 'Equal': 'y', 'Greater': 'x'}, 'std::cmp::max': {'Less': 'y', 'Equal': 'y', 'Greater': 'x'}}
+FLIP = {'Less': 'Greater', 'Greater': 'Less', 'Equal': 'Equal'}
+FN_CALL = ('std::ops::Fn::call', 'std::ops::FnMut::call_mut', 'std::ops::FnOnce::call_once')
+
+
+def _is_call_of(t, callee_term, args):
+    return t[0] == 'call' and sg(t[1]) in FN_CALL and t[2][0] == callee_term and t[2][1] == ('tuple', tuple(args))
+
+
+def operator_selection(ctx, op, mode, user=None):
+    """which of its two arguments (x = first / accumulated, y = second) the binary operator `op` returns for each ordering
+    of (x, y).  mode: 'natural' (Ord::cmp of the items), 'by' (user(&x, &y)), 'key' (user(&x).cmp(&user(&y))).
+    Returns (table, description) or (None, why)."""
+    F = ctx.facts
+    if op[0] == 'fn':
+        c = sg(op[1])
+        if mode == 'natural' and c in STD_SELECT:
+            return dict(STD_SELECT[c]), 'std %s' % c.split('::')[-1]
+        return None, 'operator %s' % c
+    if op[0] != 'closure' or op[1] not in F.bodies or ORD not in F.adts:
+        return None, 'operator %s' % t_str(op)[:80]
+    cb = F.bodies[op[1]]
+    if len(cb.arg_locals()) != 3:
+        return None, 'operator closure does not take two arguments'
+    x, y = P(cb.local_name(2) or '_2'), P(cb.local_name(3) or '_3')
+    r0 = ctx.run(op[1])
+    cap = None
+    if user is not None:
+        if user not in op[2]:
+            return None, 'the operator does not use %s' % t_str(user)
+        cap = P('cap:' + cb.d['captures'][list(op[2]).index(user)])
+    cands = []
+    for _, c in r0.call_sites():
+        t = c['res']
+        if mode == 'natural' and sg(c['decl']) in ('std::cmp::Ord::cmp', 'std::cmp::PartialOrd::partial_cmp'):
+            a = tuple(c['args'])
+            if a == (x, y):
+                cands.append((t, False))
+            elif a == (y, x):
+                cands.append((t, True))
+        elif mode == 'by' and cap is not None:
+            if _is_call_of(t, cap, (x, y)):
+                cands.append((t, False))
+            elif _is_call_of(t, cap, (y, x)):
+                cands.append((t, True))
+        elif mode == 'key' and cap is not None and sg(c['decl']) == 'std::cmp::Ord::cmp' and len(c['args']) == 2:
+            kx, ky = c['args']
+            if _is_call_of(kx, cap, (x,)) and _is_call_of(ky, cap, (y,)):
+                cands.append((t, False))
+            elif _is_call_of(kx, cap, (y,)) and _is_call_of(ky, cap, (x,)):
+                cands.append((t, True))
+    if len(cands) != 1:
+        return None, 'the ordering of the two arguments is not computed once as %s' % {'natural': 'x.cmp(&y)', 'by': 'compare(&x, &y)', 'key': 'key(&x).cmp(&key(&y))'}[mode]
+    CT, flipped = cands[0]
+    tab = {}
+    for nm in ('Less', 'Equal', 'Greater'):
+        vt = ('variant', ORD, F.variant_index(ORD, nm), (), nm)
+        rr = ctx.opa.run(op[1], seeds={'subst': {CT: vt}, 'key': ('sel', op[1], nm)})
+        got = 'x' if rr.ret == x else ('y' if rr.ret == y else None)
+        if got is None:
+            return None, 'for %s the operator returns %s, neither argument' % (nm, t_str(rr.ret)[:60])
+        tab[FLIP[nm] if flipped else nm] = got
+    return tab, 'closure on %s%s' % ({'natural': 'x.cmp(&y)', 'by': 'compare(&x, &y)', 'key': 'key(&x).cmp(&key(&y))'}[mode], ' (arguments swapped)' if flipped else '')
+
+
+def comparison_mode_of(ctx, g, b, want):
+    """classify the comparison argument `g` handed by wrapper body b to a *_by sibling: natural / by(user) / key(user)"""
+    F = ctx.facts
+    if g[0] == 'fn' and sg(g[1]) == 'std::cmp::Ord::cmp':
+        return 'natural', None
+    if g[0] == 'param':
+        return 'by', g
+    if g[0] == 'closure' and g[1] in F.bodies:
+        cb = F.bodies[g[1]]
+        if len(cb.arg_locals()) == 3:
+            x, y = P(cb.local_name(2) or '_2'), P(cb.local_name(3) or '_3')
+            r0 = ctx.run(g[1])
+            rt = r0.ret
+            if rt is not None and rt[0] == 'call' and sg(rt[1]) == 'std::cmp::Ord::cmp' and len(rt[2]) == 2:
+                a, c = rt[2]
+                if (a, c) == (x, y):
+                    return 'natural', None
+                caps = cb.d.get('captures', [])
+                for i, cn in enumerate(caps):
+                    cap = P('cap:' + cn)
+                    if _is_call_of(a, cap, (x,)) and _is_call_of(c, cap, (y,)) and i < len(g[2]):
+                        return 'key', g[2][i]
+                    if _is_call_of(rt, cap, (x, y)) and i < len(g[2]):
+                        return 'by', g[2][i]
+    return None, None
+
+
+def selection_table(ctx, m, depth=0):
+    """selection table of the provided method Par::m (min/max/min_by/max_by/min_by_key/max_by_key): for each ordering of
+    (earlier element x, later element y) under the method's comparison, which one survives.  Follows delegation to a
+    sibling (`max` = `max_by(Ord::cmp)`, `max_by_key(k)` = `max_by(|a, b| k(a).cmp(&k(b)))`)."""
+    F = ctx.facts
+    b = F.bodies.get(PAR_TRAIT + '::' + m)
+    if b is None or depth > 3:
+        return None, 'no body'
+    r = ctx.run(b.name)
+    mode = 'natural' if m in ('min', 'max') else ('by' if m.endswith('_by') else 'key')
+    user = P(b.local_name(2)) if mode != 'natural' and len(b.arg_locals()) > 1 else None
+    rc = reduce_call_of(ctx, b, r)
+    if rc is not None:
+        if r.ret != rc['res']:
+            return None, 'does not return the reduction: %s' % t_str(r.ret)[:100]
+        return operator_selection(ctx, rc['args'][1], mode, user)
+    # delegation to a sibling wrapper
+    sib = [c for _, c in r.call_sites() if sg(c['decl']).startswith(PAR_TRAIT + '::') and sg(c['decl']).split('::')[-1] in ('min', 'max', 'min_by', 'max_by', 'min_by_key', 'max_by_key')
+           and c['args'] and c['args'][0] == P('self')]
+    if len(sib) != 1 or r.ret != sib[0]['res']:
+        return None, 'neither reduce(self, op) nor a sibling wrapper: %s' % t_str(r.ret)[:100]
+    m2 = sg(sib[0]['decl']).split('::')[-1]
+    tab2, why2 = selection_table(ctx, m2, depth + 1)
+    if tab2 is None:
+        return None, 'delegates to %s: %s' % (m2, why2)
+    if m2 in ('min', 'max'):
+        ok = mode == 'natural'
+    else:
+        gmode, guser = comparison_mode_of(ctx, sib[0]['args'][1] if len(sib[0]['args']) > 1 else None, b, mode) if len(sib[0]['args']) > 1 else (None, None)
+        if m2.endswith('_by_key'):
+            ok = mode == 'key' and sib[0]['args'][1] == user
+        else:
+            ok = gmode == mode and (mode == 'natural' or guser == user)
+    if not ok:
+        return None, 'delegates to %s with a comparison that is not this method\'s own' % m2
+    return tab2, 'delegates to %s (%s)' % (m2, why2)
+
+
+
 @rule('C03-WRAP', 'fold/sum/min/max/min_by*/max_by* are thin wrappers over reduce with the right operator')
 def c03_wrap(ctx):
     from .optcase import case_returns_rerun, apply_term
@@ -1089,52 +1282,19 @@ def c03_wrap(ctx):
             ok = binary_op_is(ctx, rc['args'][1], ('std::ops::Add::add',)) and cases['some'] == {V} and dflt
             why = 'reduce(self, %s); Some(v) => %s; None => %s' % (t_str(rc['args'][1])[:60], sorted(t_str(x)[:40] for x in cases['some']), sorted(t_str(x)[:40] for x in cases['none']))
         check('sum', ok, why + ' (expected reduce(self, +), v, default())', b)
-    for m, f in (('min', 'std::cmp::Ord::min'), ('max', 'std::cmp::Ord::max')):
-        b = body_of(m)
-        if b:
-            r = ctx.run(b.name)
-            rc = reduce_call_of(ctx, b, r)
-            ok = rc is not None and r.ret == rc['res'] and binary_op_is(ctx, rc['args'][1], (f,))
-            check(m, ok, t_str(r.ret)[:160] + ' (expected reduce(self, %s))' % f.split('::')[-1], b)
-    ord_variant = {nm: ('variant', ORD, F.variant_index(ORD, nm), (), nm) for nm in ('Less', 'Equal', 'Greater')} if ORD in F.adts else {}
-    for m in ('min_by', 'max_by', 'min_by_key', 'max_by_key'):
+    for m in ('min', 'max', 'min_by', 'max_by', 'min_by_key', 'max_by_key'):
         b = body_of(m)
         if not b:
             continue
-        r = ctx.run(b.name)
-        rc = reduce_call_of(ctx, b, r)
-        user = P(b.local_name(2))
-        if not (rc is not None and r.ret == rc['res'] and rc['args'][1][0] == 'closure' and user in rc['args'][1][2]):
-            check(m, False, t_str(r.ret)[:160] + ' (expected reduce(self, closure over the user function))', b)
+        tab, why = selection_table(ctx, m)
+        if tab is None:
+            check(m, False, why, b)
             continue
-        op = rc['args'][1]
-        cb = F.bodies[op[1]]
-        x, y = P(cb.local_name(2)), P(cb.local_name(3))
-        capi = list(op[2]).index(user)
-        cap = P('cap:' + cb.d['captures'][capi])
-        r0 = ctx.run(op[1])
-        if m.endswith('_key'):
-            kx = ('call', 'std::ops::Fn::call', (cap, ('tuple', (x,))))
-            ky = ('call', 'std::ops::Fn::call', (cap, ('tuple', (y,))))
-            cts = [c['res'] for _, c in r0.call_sites() if method(c['t']) == 'cmp' and tuple(c['args']) == (kx, ky)]
-            bad_order = [c for _, c in r0.call_sites() if method(c['t']) == 'cmp' and tuple(c['args']) != (kx, ky)]
-        else:
-            want = ('call', 'std::ops::Fn::call', (cap, ('tuple', (x, y))))
-            cts = [c['res'] for _, c in r0.call_sites() if c['res'] == want]
-            bad_order = [c for _, c in r0.call_sites() if is_user_closure_call(c['t'], cb) and c['res'] != want]
-        if len(cts) != 1 or bad_order or not ord_variant:
-            check(m, False, 'the ordering is not computed as %s' % ('key(x).cmp(&key(y))' if m.endswith('_key') else 'compare(&x, &y)'), b)
-            continue
-        CT = cts[0]
-        verdicts = {}
-        for nm, vt in ord_variant.items():
-            rr = ctx.opa.run(op[1], seeds={'subst': {CT: vt}, 'key': (m, nm)})
-            verdicts[nm] = rr.ret
         if m.startswith('min'):
-            ok = verdicts['Less'] == x and verdicts['Greater'] == y and verdicts['Equal'] in (x, y)
+            ok = tab['Less'] == 'x' and tab['Greater'] == 'y' and tab['Equal'] in ('x', 'y')
         else:
-            ok = verdicts['Greater'] == x and verdicts['Less'] == y and verdicts['Equal'] in (x, y)
-        check(m, ok, ', '.join('%s=>%s' % (k, t_str(v)) for k, v in verdicts.items()), b)
+            ok = tab['Greater'] == 'x' and tab['Less'] == 'y' and tab['Equal'] in ('x', 'y')
+        check(m, ok, '%s [%s] (expected the %s of the two)' % (', '.join('%s=>%s' % kv for kv in sorted(tab.items())), why, 'smaller' if m.startswith('min') else 'larger'), b)
     out.floor('wrappers', n, 8 if not ctx.fixture else 0)
     return out
 
@@ -1667,3 +1827,31 @@ def loop_tag(b, cfg, h, L):
     """a position-independent tag for a loop: its rank among the loops of the body in header order"""
     hs = sorted(cfg.loops())
     return 'L%d' % hs.index(h)
+
+
+# ======================================================================================= C09-TIES
+@rule('C09-TIES', 'min*/max* break ties like std: the first of equal minima, the last of equal maxima (sequential reduce is a left fold)')
+def c09_ties(ctx):
+    out = RuleOut('C09-TIES')
+    F = ctx.facts
+    n = 0
+    for m in ('min', 'max', 'min_by', 'max_by', 'min_by_key', 'max_by_key'):
+        b = F.bodies.get(PAR_TRAIT + '::' + m)
+        if b is None:
+            continue
+        n += 1
+        tab, why = selection_table(ctx, m)
+        key = 'C09-TIES/%s::%s' % (PAR_TRAIT, m)
+        if tab is None:
+            out.inst(key, False, why)
+            out.fail(key, '%s::%s: tie-breaking not decidable: %s' % (PAR_TRAIT, m, why), b.where(), kind='undecided')
+            continue
+        want = 'x' if m.startswith('min') else 'y'
+        ok = tab['Equal'] == want
+        out.inst(key, ok, 'Equal => %s [%s]' % (tab['Equal'], why), sample={'method': m, 'table': tab, 'std_keeps': 'first' if want == 'x' else 'last'})
+        if not ok:
+            out.fail(key, '%s::%s keeps the %s of two equal elements; Iterator::%s keeps the %s one, so with num_threads(1) the result differs from the '
+                          'std iterator chain whenever the %s is attained more than once by distinguishable elements'
+                     % (PAR_TRAIT, m, 'earlier' if tab['Equal'] == 'x' else 'later', m, 'first' if want == 'x' else 'last', 'minimum' if want == 'x' else 'maximum'), b.where())
+    out.floor('wrappers', n, 6 if not ctx.fixture else 0)
+    return out
